@@ -27,7 +27,8 @@ import (
 )
 
 var EmptyRecord = func() *SuRecord {
-	r := &SuRecord{ob: SuObject{readonly: true, defval: EmptyStr}}
+	r := &SuRecord{ob: SuObject{readonly: true, defval: EmptyStr,
+		copyCount: new(atomic.Int32)}}
 	r.ob.concurrent = true
 	return r
 }()
